@@ -492,9 +492,10 @@ pub fn parse_hist_case(v: &Value) -> Result<(Pos, Vec<Mv>), String> {
 pub fn lib_start(p: &Pos) -> Option<Board> {
     // every way of loading a position, chosen by fingerprint
     use std::convert::TryFrom;
-    match (crate::engine::fp(p) >> 17) % 4 {
-        0 | 1 => Board::from_str(&p.fen()).ok(),
-        2 => Board::try_from(&bridge::builder_of(p)).ok(),
+    match (crate::engine::fp(p) >> 17) % 6 {
+        0 | 1 | 2 => Board::from_str(&p.fen()).ok(),
+        3 => Board::try_from(&bridge::builder_of(p)).ok(),
+        4 => Board::try_from(&mut bridge::builder_of(p)).ok(),
         _ => Board::try_from(bridge::builder_of(p)).ok(),
     }
 }
